@@ -109,6 +109,21 @@ def kind(a, b, s):
     return 'cardinality'
 
 
+def core_structural(model):
+    """Always-selected features of a tree without constraints, structurally: the root, and every
+    child of an always-selected feature whose relation needs all its children
+    (min >= number of children).  Cross-checked against brute force on every small state."""
+    out = []
+    stack = [model[0]]
+    while stack:
+        f = stack.pop()
+        out.append(f[0])
+        for (a, _b, kids) in f[1]:
+            if a >= len(kids):
+                stack.extend(kids)
+    return frozenset(out)
+
+
 def count_closed_form(model):
     """Exact number of tree configurations by a product/sum formula with elementary
     symmetric polynomials (second, independent reference for the counting oracle)."""
